@@ -184,7 +184,10 @@ def go_outcomes(cfg, dev=frozenset(), limit=300000):
                     elif closed:
                         succ.append(adv(st, i, sel_res(pi, 0, False)))
                     else:
-                        parked_senders = any(j != i and blk and pk for (j, _, _, blk, pk) in senders.get(c, []))
+                        # (a committed blocking select stays registered as a sender until its endSelect ran)
+                        parked_senders = any(j != i and blk and pk for (j, _, _, blk, pk) in senders.get(c, [])) or \
+                            any(j != i and o[0] == "S" and o[1] and any(cc == c and sd for (cc, sd, _) in o[2])
+                                for j in range(n) for o in progs[j])
                         other_recv = any(j != i and pk for (j, _, _, pk) in receivers.get(c, []))
                         if parked_senders:
                             succ.append((pos, ch, rs, posted, upd(sub, i, (pi, True))))
